@@ -22,6 +22,12 @@ CLAIMED = {
  'C10': ('exploration', 'deterministic simulation with fault injection: seeded scheduler + simulated clock over the real progress protocol; receiver-drop fault enumerated over every message index',
          'The real run_progress protocol (reporter thread, per-chain channels, scoped workers) runs on simulated threads, channels and clock. Seeded random/PCT/sticky schedules, chain counts 1..48, clock regimes from frozen to one message per step, stalls of hours. Oracles: draws equal the transition-counter model, diagnostics equal RunStats::from(returned draws), no step-bound hit (hang), no deadlock, no panic, reporter exits within n_chains+5 polls after the last message; receiver dropped after j messages for every j.',
          'Trusts: shuttle; the cost model of the simulated clock (any monotone clock is legal); hang verdicts rely on fair schedulers only (random, PCT with yield on sleep, round-robin sticky).', '3/C10'),
+ 'C16': ('exploration', 'deterministic simulation of the generator seam: injected uniform variates (crafted generator states) incl. the complete f32 variate space; reference inverse CDF with zero-probability exclusion',
+         'Categorical::new / logp / sample run for real; the private OS-seeded generator is replaced (verification-only constructor) by a crafted state whose next output is chosen. Per weight vector (length 1..64, zeros anywhere, unnormalised): normalisation, bitwise logp, and sample() for the variates 0, 1 ulp, 1-ulp, the representable values around every cumulative boundary and random ones; for f32 vectors the complete space of 2^24 variates is enumerated (exhaustive per vector) and exact selection frequencies are compared with the probabilities. A zero-probability category is never acceptable.',
+         'Trusts: the crafted generator state (self-checked); the set of weight vectors is sampled, the variate space per f32 vector is complete.', '3/C16'),
+ 'C17': ('fault_enumeration', 'deterministic simulation with fault injection on the disk seam: in-memory file with a fault plan, every write-call index x fault kind enumerated per input, round trip through the real readers',
+         'The five save functions and the real csv / arrow-ipc / parquet writers run against the simulated disk. Per input (format x element type in turn, shapes 0..6 x 0..40 x 0..8 incl. empty axes, special values) one fault-free save is read back with the crates own readers (one row per cell, labels per documented axis order, bit-exact values, header/schema), then one save per (write-call index, fault kind in {transient, sticky ENOSPC, EIO, short write, EINTR, zero write}) for EVERY write call of that file (sampled above 48 calls), every flush call and every create error; plus unwritable paths on the real file system. Oracle: never a panic; Ok implies a complete correct file.',
+         'Trusts: the in-memory disk as a model of a failing file; readers of the same crate versions as the oracle for the file formats.', '3/C17'),
 }
 NA = {
  'C11': 'pure function of the sample array: no generator, clock, file, peer or shared state for a scheduler or fault to act on (input generation is not simulation); DESIGN.md section 3/C11',
